@@ -161,7 +161,7 @@ Fixpoint indent_lines (blanks : bool) (k : nat) (strl : list nat) (i : nat) (ls 
   end.
 
 (* the other lines of a multi-line binding get the indentation of a slot that stands alone on its line,
-   except the lines that begin inside a string literal of the bound text (f83e193: a multi-line docstring
+   except the lines that begin inside a string literal of the bound text (f93f22a: a multi-line docstring
    of a bound def / class is content).  [strl v] = those lines, zero-based:
    core._lines_inside_string_literals(v), a tokenizer question -- an input of the model *)
 Definition indent_binding (strl : text -> list nat) (k : nat) (v : text) : text :=
